@@ -5,6 +5,7 @@ cd "$(dirname "$0")"
 mkdir -p evidence replays corpus
 # the lock-discipline skeleton is a translation of /repo's current request handlers (C10)
 python3 harness/skeleton.py >/dev/null
+python3 harness/lockshape.py >/dev/null
 # models, lemmas, generated skeleton, driver; the property theorems are (re)built by each check for its own
 # property, so a proof that no longer checks for one property does not stop the others
 ( cd lean && lake build RadicaleModel RadicaleProofs Generated Driver driver 2>&1 | grep -v '^trace' | tail -5 )
